@@ -166,6 +166,9 @@ pub struct ColSpec {
     pub name: String,
     pub ty: ColType,
     pub nullable: bool,
+    /// model-side identity of the column: survives renames, fresh for re-added names
+    #[serde(default)]
+    pub cid: u32,
 }
 
 #[derive(Clone, Debug, PartialEq, Eq, Serialize, Deserialize, Default)]
@@ -185,6 +188,9 @@ impl TableSchema {
     }
     pub fn col(&self, name: &str) -> Option<(usize, &ColSpec)> {
         self.cols.iter().enumerate().find(|(_, c)| c.name == name)
+    }
+    pub fn col_by_cid(&self, cid: u32) -> Option<(usize, &ColSpec)> {
+        self.cols.iter().enumerate().find(|(_, c)| c.cid == cid)
     }
     pub fn names(&self) -> Vec<String> {
         self.cols.iter().map(|c| c.name.clone()).collect()
